@@ -732,6 +732,21 @@ func c09Family(ctx *Ctx) error {
 						lines = append(lines, runs[i-lo].line)
 					}
 				}
+				// events are the caller's: every event of the chunk is read again now that all later ones have been made
+				// (on this goroutine and, at the same time, on the other workers)
+				for i := lo; i < hi; i++ {
+					r := runs[i-lo]
+					if r.ev == nil || r.buildErr != nil || !strings.HasPrefix(r.obs, "ts=") {
+						continue
+					}
+					if now := coal.Flatten(r.ev, r.perr); now != r.obs {
+						v := common.Violation{Kind: "correspondence", Clause: "an event read differently after later events had been made; the model's values are immutable", Input: cases[i], Impl: now, Model: r.obs, Case: base + i,
+							Note: "on this input a clause of a sibling property fails: C15: a previously returned event changed"}
+						res.Hist("sibling_clause_failed")
+						res.Violate(v)
+						break
+					}
+				}
 				replies, err := m.Ask(lines)
 				if err != nil {
 					res.Violate(common.Violation{Kind: "correspondence", Clause: "model driver failed: " + err.Error(), Case: base + lo})
